@@ -28,7 +28,7 @@ SPEC = dict(
     assumptions=["'matching' = R1 full match whose calendar parts denote an existing date; order = packaging",
                  "--ignore-vcs-tag is the documented opt-out: only 'tags do not influence the start' is asserted there",
                  "day-of-year 366 in a non-leap year is not generated (the statement does not say whether it matches)"],
-    required=["real_git_head_without_commit", "fake_runs", "real_git_runs", "scope:default", "scope:global", "scope:branch", "ignore_runs",
+    required=["tags_omitting_an_optional_calendar_part", "real_git_head_without_commit", "fake_runs", "real_git_runs", "scope:default", "scope:global", "scope:branch", "ignore_runs",
               "impossible_date_tags", "tie_cases", "uniqueness_checked", "no_matching_tag_cases", "cli_tag_scope_overrides", "show_pep440_line_checked", "fetch_failure_cases", "legacy_pattern_runs", "line_separator_in_tag_name", "non_utf8_tag_names", "real_git_column_ui_always", "unicode_blank_at_tag_edge",
               "planned_result_is_a_pep440_equal_tag_elsewhere", "fake_hg_runs", "hg_changesets_with_several_tags"],
     anchors=[("cli", "_parse_version_tags"), ("cli", "get_latest_vcs_version_tag"), ("cli", "_update_cfg_from_vcs"),
@@ -44,6 +44,12 @@ def cases(ctx):
         yield {"kind": "legacy", "seed": R.getrandbits(48)}
     for _ in range(ctx.size(160, 3000)):
         yield {"kind": "real", "seed": R.getrandbits(48)}
+    k = 0
+    for i in range(5):
+        for scope in ("default", "global", "branch"):
+            if ctx.mine(k):
+                yield {"kind": "optcal", "i": i, "scope": scope}
+            k += 1
 
 
 def vkey(t):
@@ -510,7 +516,43 @@ def run_legacy(ctx, case):
         fake.destroy()
 
 
+# patterns with an OPTIONAL calendar part: a tag may leave it out and still match in full
+OPTCAL = [("YYYY.MM[.DD]", "2026.9.30", ["2026.8", "2026.7.15", "junk"], "2026.9.30"),
+          ("YYYY.MM[.DD]", "2026.5.1", ["2026.8", "2026.7.15"], "2026.8"),
+          ("vYYYY[.0M[.0D]]", "v2025.03.07", ["v2026", "v2024.11", "v2025.03.01"], "v2026"),
+          ("YYYY[.Q].BUILD", "2026.2.1001", ["2026.1002", "2025.4.0999"], None),
+          ("GGGG[.0V].INC0", "2026.07.3", ["2026.4", "2025.51.0"], None)]
+
+
+def run_optcal(ctx, case):
+    p, cur, tags, want = OPTCAL[case["i"]]
+    scope = case["scope"]
+    d = harness.new_project(make_project(p, cur, scope))
+    fake = harness.FakeVCS(d, "git")
+    try:
+        fake.set_out("tag-list", "\n".join(tags) + "\n")
+        fake.set_out("tag-merged", "\n".join(tags) + "\n")
+        ctx.count("tags_omitting_an_optional_calendar_part")
+        ctx.evaluated(("optcal", p, scope), sample={"pattern": p, "config": cur, "tags": tags})
+        for args in (["show", "--no-fetch"], ["update", "--dry", "--no-fetch", "--date", "2031-02-03"]):
+            res = harness.invoke(args, cwd=d, env=fake.env)
+            if res.crash:
+                ctx.violation("other:tag_without_optional_calendar_part_crashes", f"{args} with pattern {p!r}, config {cur!r}, tags "
+                              f"{tags}: {res.crash[-300:]}", case=case)
+                return
+            got = res.stdout_value("Current Version: ") if args[0] == "show" else res.record_value("Old Version: ")
+            # (global and branch scope start from the greatest tag whatever the config says: asserted for default scope only)
+            if want is not None and scope == "default" and res.exit_code == 0 and got != want:
+                ctx.violation("other:wrong_start_version", f"{args}: starts from {got!r}, expected {want!r} (pattern {p!r}, config "
+                              f"{cur!r}, tags {tags}, scope {scope})", case=case)
+    finally:
+        harness.rm_dir(d)
+        fake.destroy()
+
+
 def run_case(ctx, case):
+    if case["kind"] == "optcal":
+        return run_optcal(ctx, case)
     if case["kind"] == "legacy":
         return run_legacy(ctx, case)
     if case["kind"] == "fake":
